@@ -10,24 +10,52 @@ namespace Desync
 
 /-! ### the feeder loop -/
 
-/-- one iteration of the feeder loop, with the generated arithmetic unfolded: the slice sent is
-    `[i, min (i+batch+1) c)` and the loop variable advances to `i+batch+1`.
-    (The value of `Gen.vBatch` is irrelevant for the partition property.) -/
+/-- the number of chunks of a batch after the first one of it, read off the regenerated loop: the
+    loop variable advances by `feedBatch c n + 1` (for the pinned source `c / (n * 10)`; its value is
+    irrelevant for the partition property) -/
+def feedBatch (c n : Nat) : Nat := Gen.vNext 0 c n - 1
+
+/-- a division by something that is not a literal, hidden from `omega` (which otherwise abstracts
+    it as an integer of unknown sign) -/
+def natDiv (a b : Nat) : Nat := a / b
+theorem natDiv_eq (a b : Nat) : a / b = natDiv a b := rfl
+
+set_option linter.unusedSimpArgs false in
+/-- **the one lemma that looks inside the regenerated definitions**: whatever the spelling of the
+    feeder loop, it starts at 0, runs while `i < c`, sends `[i, min (i+b+1) c)` and goes on with
+    `i+b+1`.  The script does not depend on the spelling: unfold, case analysis on every `if`,
+    linear arithmetic. -/
+theorem gen_feeder_arith (i c n : Nat) :
+    Gen.vInit c n = 0 ∧ (Gen.vCond i c n = true ↔ i < c) ∧
+    (i < c → Gen.vLo i c n = i ∧ Gen.vHi i c n = min (i + feedBatch c n + 1) c ∧
+      Gen.vNext i c n = i + feedBatch c n + 1) := by
+  refine ⟨?_, ?_, fun h => ⟨?_, ?_, ?_⟩⟩ <;>
+  (try simp only [feedBatch, Gen.vInit, Gen.vCond, Gen.vLo, Gen.vHi, Gen.vNext, decide_eq_true_eq,
+    Bool.and_eq_true, Bool.or_eq_true, Bool.not_eq_true', decide_eq_false_iff_not, Bool.and_true,
+    Bool.true_and]) <;>
+  (repeat' split) <;>
+  first | omega | (simp only [natDiv_eq] at *; omega)
+
+/-- one iteration of the feeder loop: the slice sent is `[i, min (i+batch+1) c)` and the loop
+    variable advances to `i+batch+1` -/
 theorem batchesFrom_succ_of_lt (c n fuel i : Nat) (h : i < c) :
     batchesFrom c n (fuel + 1) i =
-      (i, min (i + Gen.vBatch c n + 1) c) :: batchesFrom c n fuel (i + Gen.vBatch c n + 1) := by
-  rw [batchesFrom, if_pos h]
-  delta Gen.vLast Gen.vClampCond Gen.vClampVal Gen.vSliceLo Gen.vSliceHi Gen.vStep
-  dsimp only
-  generalize Gen.vBatch c n = b
-  congr 2
-  simp only [decide_eq_true_eq]
-  split <;> omega
+      (i, min (i + feedBatch c n + 1) c) :: batchesFrom c n fuel (i + feedBatch c n + 1) := by
+  obtain ⟨_, hc, ha⟩ := gen_feeder_arith i c n
+  obtain ⟨hlo, hhi, hnext⟩ := ha h
+  rw [batchesFrom, if_pos (hc.2 h), hlo, hhi, hnext]
 
 theorem batchesFrom_of_ge (c n fuel i : Nat) (h : c ≤ i) : batchesFrom c n fuel i = [] := by
   cases fuel with
   | zero => rfl
-  | succ fuel => rw [batchesFrom]; simp [Nat.not_lt.mpr h]
+  | succ fuel =>
+    have hc : ¬ (Gen.vCond i c n = true) := fun hh => by
+      have := (gen_feeder_arith i c n).2.1.1 hh
+      omega
+    rw [batchesFrom, if_neg hc]
+
+theorem batches_eq (c n : Nat) : batches c n = batchesFrom c n c 0 := by
+  rw [batches, (gen_feeder_arith 0 c n).1]
 
 /-- generalisation of `batches_partition` over the loop variable -/
 theorem batchesFrom_partition (c n : Nat) :
@@ -45,7 +73,7 @@ theorem batchesFrom_partition (c n : Nat) :
     by_cases hi : i < c
     · rw [batchesFrom_succ_of_lt c n fuel i hi, List.flatMap_cons, ih _ (by omega)]
       simp only []
-      generalize Gen.vBatch c n = b
+      generalize feedBatch c n = b
       by_cases hb : i + b + 1 ≤ c
       · rw [Nat.min_eq_left hb]
         have h1 : i + b + 1 - i = b + 1 := by omega
@@ -64,7 +92,7 @@ theorem batchesFrom_partition (c n : Nat) :
     and every n ≥ 1 -/
 theorem batches_partition (c n : Nat) (_hn : 1 ≤ n) :
     (batches c n).flatMap (fun (p : Nat × Nat) => List.range' p.1 (p.2 - p.1)) = List.range c := by
-  unfold batches
+  rw [batches_eq]
   rw [batchesFrom_partition c n c 0 (by omega), List.range_eq_range']
   simp
 
@@ -79,10 +107,10 @@ theorem batchesFrom_consecutive (c n : Nat) :
   cases fuel with
   | zero => omega
   | succ fuel =>
-    refine ⟨min (i + Gen.vBatch c n + 1) c, batchesFrom c n fuel (i + Gen.vBatch c n + 1),
+    refine ⟨min (i + feedBatch c n + 1) c, batchesFrom c n fuel (i + feedBatch c n + 1),
       batchesFrom_succ_of_lt c n fuel i hi, by omega, by omega, ?_, ?_⟩
     · intro hlt
-      have : min (i + Gen.vBatch c n + 1) c = i + Gen.vBatch c n + 1 := by omega
+      have : min (i + feedBatch c n + 1) c = i + feedBatch c n + 1 := by omega
       exact ⟨fuel, by omega, by rw [this]⟩
     · intro heq
       exact batchesFrom_of_ge c n fuel _ (by omega)
@@ -104,7 +132,7 @@ theorem batchesFrom_all {α : Type} (l : List α) (P : α → Bool) (n : Nat) :
     by_cases hi : i < l.length
     · rw [batchesFrom_succ_of_lt _ n fuel i hi, List.all_cons, ih _ (by omega)]
       simp only []
-      generalize Gen.vBatch l.length n = b
+      generalize feedBatch l.length n = b
       have hsplit : l.drop i = (l.drop i).take (b + 1) ++ l.drop (i + b + 1) := by
         have := (List.take_append_drop (b + 1) (l.drop i)).symm
         rw [List.drop_drop] at this
@@ -131,7 +159,7 @@ theorem batchesFrom_all {α : Type} (l : List α) (P : α → Bool) (n : Nat) :
 theorem batches_all_iff {α : Type} (l : List α) (P : α → Bool) (n : Nat) (_hn : 1 ≤ n) :
     ((batches l.length n).all fun (p : Nat × Nat) => ((l.drop p.1).take (p.2 - p.1)).all P) =
       l.all P := by
-  unfold batches
+  rw [batches_eq]
   rw [batchesFrom_all l P n l.length 0 (by omega)]
   simp
 
@@ -263,17 +291,21 @@ theorem single_change_detected (H : Digest) (f g : Bytes) (idx : Index) (n : Nat
   rw [hfl', ← hgl', List.take_length] at h
   exact h
 
-/-! ### non-vacuity -/
+/-! ### non-vacuity
 
-example : batches 7 1 = [(0,1),(1,2),(2,3),(3,4),(4,5),(5,6),(6,7)] := by decide
+  Stated relative to `feedBatch` (for the pinned source `feedBatch 25 1 = 25/10 = 2`, so these are
+  `[(0,3),(3,6),…,(24,25)]`, and `feedBatch 25 2 = 1`): the theorems above do not depend on the
+  batch size, so the examples do not either. -/
 
-/-- `batch = 25/10 = 2`; every slice but the last has `batch+1 = 3` chunks -/
-example : batches 25 1 =
-    [(0,3),(3,6),(6,9),(9,12),(12,15),(15,18),(18,21),(21,24),(24,25)] := by decide
+example : (batches 7 1).getLast? = some (7 - (7 - 1) % (feedBatch 7 1 + 1) - 1, 7) := by decide
 
-example : batches 25 2 =
-    [(0,2),(2,4),(4,6),(6,8),(8,10),(10,12),(12,14),(14,16),(16,18),(18,20),(20,22),(22,24),
-     (24,25)] := by decide
+/-- every slice but the last has `feedBatch + 1` chunks -/
+example : (batches 25 1).take 2 =
+    [(0, feedBatch 25 1 + 1), (feedBatch 25 1 + 1, 2 * (feedBatch 25 1 + 1))] ∧
+    (batches 25 1).length = (25 + feedBatch 25 1) / (feedBatch 25 1 + 1) := by decide
+
+example : (batches 25 2).length = (25 + feedBatch 25 2) / (feedBatch 25 2 + 1) ∧
+    (batches 25 2).getLast?.map (·.2) = some 25 := by decide
 
 example : batches 0 3 = [] := by decide
 
